@@ -464,6 +464,13 @@ class LoopRun:
                     elif isinstance(c2, HList) and c2.items is not None and isinstance(kind, K.Seq):
                         c2.sym = Sym(kind, P.seq_of(ex, [P.lift(ex, x, kind.elem) for x in c2.items], kind))
                         c2.items = None
+        # the value of every mutated cell at loop entry is available to the clauses as entry_<name>
+        for name, kind in lp.cells.items():
+            fo, ref = fr.lookup(name)
+            if fo is not None and isinstance(ref, Ref):
+                cell = run.cell(ref)
+                if getattr(cell, 'sym', None) is not None and getattr(cell, 'items', None) is None:
+                    self.extra_env[f'entry_{name}'] = cell.sym
         # 1. invariant holds on entry
         init = self.inv(ex, fr, 0, xs)
         run.oblige(f'{cid}.loop{ordinal}.inv.init', 'inv.init', _b(ex, init))
